@@ -11,7 +11,7 @@ interaction spec:
   {'k': 'rr'|'fnf'|'mp'|'st'|'ch', 'side': 'c'|'s', 'req': [dlen, mlen],
    'resp': {'mode': 'now'|'manual'|'fail'|'raise'|'late'|'cancelled'|'cancel_late'|'fail_late', 'delay': ticks, 'p': [d, m]}  (rr)
    'src':  {'kind': 'manual'|'gen'|'agen', 'els': [[d, m], ...], 'end': 'flag'|'sep'|'error'|'none',
-            'err_at': k|None, 'awaits': k} | None                                                (st, ch responder)
+            'err_at': k|None, 'awaits': k, 'pace': ms (gen/agen: delay_between_messages)} | None                                                (st, ch responder)
    'sub':  {'n0': n, 'refill': k}                                                               (st, ch requester)
    'rsrc': like src | None   (channel: requester's publisher)
    'rsub': like sub | None   (channel: responder's subscriber) }
@@ -304,7 +304,7 @@ def _scn_methods():
         if kind in ('gen', 'agen'):
             p = L['gen_source'](self.world, side, uid, dirn, tag, els, end, err_at=src.get('err_at'),
                                 asynchronous=(kind == 'agen'), awaits=src.get('awaits', 0),
-                                none_for_empty=self.none_empty)
+                                none_for_empty=self.none_empty, pace=src.get('pace', 0))
             st['libpub'][dirn] = p
             return p
         if kind in ('rx3', 'rx4', 'rx3bp', 'rx4bp'):
@@ -916,7 +916,7 @@ async def _execute(loop, program, observe=None):
             lease_pub.publish(1000000, 100000000)
         for rnd in range(400):
             ok = await simnet.run_until_quiet(loop, [conn])
-            before = world.seq
+            before = getattr(world, 'progress', 0)
             progressed = False
             if not state['faulted'] or program.get('heal_after_fault'):
                 for uid in list(scn.started):
@@ -940,7 +940,7 @@ async def _execute(loop, program, observe=None):
                 # let delayed callbacks (late futures, awaits in async generators) fire
                 await asyncio.sleep(0.05)
                 await simnet.run_until_quiet(loop, [conn])
-                if world.seq == before:
+                if getattr(world, 'progress', 0) == before:
                     stale += 1
                     if stale >= 2:
                         quiet = ok
